@@ -574,7 +574,12 @@ func drawSnippet(t *rapid.T, name string, e genEnv) []Op {
 		}
 		other := (a + 1) % e.nAcct
 		for i := rapid.IntRange(1, 4).Draw(t, "npokes"); i > 0; i-- {
-			switch pick(t, "poke", "evend-empty", "evend-absent", "evstart-end", "totpsetup", "smssetup-new", "smsremove-sess", "smsremove-own", "totpremove-own", "totpremove-other", "remove-rec", "remove-rec-other", "confirm-sess", "resend-remove", "advance") {
+			switch pick(t, "poke", "evend-empty", "evend-absent", "evstart-end", "totpsetup", "smssetup-new", "smsremove-sess", "smsremove-own", "totpremove-own", "totpremove-other", "remove-rec", "remove-rec-other", "confirm-sess", "resend-remove", "advance", "sms-relabel", "sms-relabel") {
+			case "sms-relabel":
+				// a code texted to one number, then requests (inside the resend limit) that could re-label it
+				ops = append(ops, Op{K: "smssetup", B: b, S: pick(t, "number", "+15550009", "+4477000")},
+					Op{K: "smsresend", B: b, S: pick(t, "page", "remove", "remove", "validate", "confirm")},
+					Op{K: pick(t, "use", "smsremove", "smsremove", "smsconfirm"), B: b, A: a, Src: pick(t, "csrc", "smssess", "smsany"), SN: 0})
 			case "evend-empty":
 				ops = append(ops, Op{K: "evend", B: b, A: a, N: rapid.IntRange(0, 1).Draw(t, "k"), Src: "empty"})
 			case "evend-absent":
